@@ -495,6 +495,11 @@ class Module(HasAccessibles):
         if not pobj.hasDatatype():
             self.errors.append(f'{pname} needs a datatype')
             return
+        if pobj.constant is not None:
+            # a constant is never read from the hardware and never written:
+            # the cache holds it from the beginning
+            setattr(self, pname, pobj.constant)
+            return
         if pobj.value is None:
             if pobj.needscfg:
                 self.errors.append(f'{pname!r} has no default value and was not given in config!')
